@@ -21,14 +21,7 @@ pub fn get() -> FunctionDefinitions {
                                 let map = if size > map.len() {
                                     map
                                 } else {
-                                    let mut new_map = IndexMap::with_capacity(size);
-                                    for (k, v) in map {
-                                        new_map.insert(k, v);
-                                        if new_map.len() == size {
-                                            break;
-                                        }
-                                    }
-                                    new_map
+                                    map.into_iter().take(size).collect::<IndexMap<_, _>>()
                                 };
                                 Some(map.into())
                             }
@@ -36,14 +29,7 @@ pub fn get() -> FunctionDefinitions {
                                 let vec = if size > vec.len() {
                                     vec
                                 } else {
-                                    let mut new_vec = Vec::with_capacity(size);
-                                    for i in vec {
-                                        new_vec.push(i);
-                                        if new_vec.len() == size {
-                                            break;
-                                        }
-                                    }
-                                    new_vec
+                                    vec.into_iter().take(size).collect::<Vec<_>>()
                                 };
                                 Some(vec.into())
                             }
